@@ -357,7 +357,18 @@ class MatrixTheory:
             if elts and self._is_ellipsis(elts[-1]):
                 elts = elts[:-1]
             if len(elts) == 1:
-                return self.mat_set_rows(m, self.ev(elts[0], st), val, st, tgt)
+                i0_ = self.ev(elts[0], st)
+                if isinstance(i0_, VInt) and isinstance(val, VList):
+                    # M[i, ...] = block: the same as M[i] = block
+                    cv = st.heap.lists[val.ref]
+                    if cv.etype != et:
+                        raise Unsupported('row assignment of %s values into a %s array' % (cv.etype, et))
+                    self.used('M[i] = block (row / block assignment)')
+                    self.oblige(st, 'index', 'row-index-in-range', z3.And(i0_.t >= 0, i0_.t < n), tgt, raises='IndexError')
+                    self.oblige(st, 'pre', 'row-assignment.same-length', cv.length == w, tgt, raises='ValueError')
+                    st.heap.rags[m.ref] = RagCell(et, n, z3.K(z3.IntSort(), w), z3.Store(data, i0_.t, cv.leaves[0]))
+                    return True
+                return self.mat_set_rows(m, i0_, val, st, tgt)
             if len(elts) != 2:
                 return False
             X, C = self.ev(elts[0], st), self.ev(elts[1], st)
